@@ -62,6 +62,21 @@ var newKinds = []kindInfo{
 	{"flavor-method", "flavor-method", bodyPos},   // (defflavor F) (defmethod (F :m) () BODY) at top level, (send (make-instance 'F) :m) in place
 	{"whopper", "whopper", bodyPos},               // ... (defwhopper (F :m) () BODY with (continue-whopper)) around a primary method that is one marker
 	{"generic-method", "generic-method", bodyPos}, // (defmethod G ((o C)) BODY) at top level, (G (make-instance 'C)) in place
+	// closures called in place: transparent, every block, tag and function block outside is visible in BODY (the kind
+	// "lambda" of the first rounds is (funcall (lambda (z) BODY) 0))
+	{"funcall-lambda", "funcall-lambda", bodyPos}, // (funcall (lambda () BODY))
+	{"lambda-form", "lambda-form", bodyPos},       // ((lambda () BODY))
+	{"apply-lambda", "apply-lambda", bodyPos},     // (apply (lambda (z) BODY) '(1))
+	{"let-lambda", "let-lambda", bodyPos},         // (let ((f (lambda () BODY))) (funcall f))
+}
+
+// isClosure: anonymous functions called in place.
+func isClosure(k *kindInfo) bool {
+	switch k.name {
+	case "lambda", "funcall-lambda", "lambda-form", "apply-lambda", "let-lambda":
+		return true
+	}
+	return false
 }
 
 var newKindSet = func() map[string]bool {
@@ -222,6 +237,15 @@ func (b *built) buildNew(level int) eval.Node {
 		b.forms = append(b.forms, form("defflavor", S(fl), nil, nil))
 		b.forms = append(b.forms, defs...)
 		return eval.L(S("send"), eval.L(S("make-instance"), eval.Q(S(fl))), S(":m"))
+	case "funcall-lambda":
+		return eval.L(S("funcall"), b.bodyForm("lambda", level, nil))
+	case "lambda-form":
+		return eval.L(b.bodyForm("lambda", level, nil))
+	case "apply-lambda":
+		return eval.L(S("apply"), b.bodyForm("lambda", level, eval.L(lv("z", level))), eval.Q(eval.L(eval.Int(1))))
+	case "let-lambda":
+		lam := b.bodyForm("lambda", level, nil)
+		return form("let", eval.L(eval.L(lv("f", level), lam)), eval.L(S("funcall"), lv("f", level)))
 	case "generic-method":
 		name := b.fnName(level)
 		b.fnNames = append(b.fnNames, name)
